@@ -222,7 +222,7 @@ def reserialise(node, how):
 
 def tie(ctx, model_ok=True):
     rnd = random.Random(ctx['seed'] * 13 + 1313)
-    n_models = 45 if ctx['tier'] == 'quick' else 500
+    n_models = 45 if ctx['tier'] == 'quick' else 250
     counts = {}
 
     def metamorphic(c):
